@@ -494,7 +494,9 @@ class Lexer(object):
                         e(environment.block_end_string),
                         e(environment.block_end_string)
                     )] + [
-                        r'(?P<%s_begin>\s*%s\-|[ \t]*%s\*|%s)' % (n, r, r, prefix_re.get(n,r))
+                        # the auto-indent marker ('*') applies to blocks and variables only, never to comments
+                        (r'(?P<%s_begin>\s*%s\-|%s)' % (n, r, prefix_re.get(n, r))) if n == 'comment' else
+                        (r'(?P<%s_begin>\s*%s\-|[ \t]*%s\*|%s)' % (n, r, r, prefix_re.get(n, r)))
                         for n, r in root_tag_rules
                     ])), (TOKEN_DATA, '#bygroup'), '#bygroup'),
                 # data
